@@ -18,14 +18,23 @@ OutcomeFails(o, tier) ==
   \o F(o.panic # "" \/ o.hung \/ o.stage = "accepted" \/ o.code = "invalid_argument",
        "C17:rejected_with_code_" \o o.code \o "_at_" \o o.stage \o ":" \o tier)
 
-Fails(r) == OutcomeFails(r.tier1, "tier1") \o OutcomeFails(r.tier2, "tier2")
+\* the REAL tier1 entry point (graph construction + Tier1Service.blocks(), mapped by the real toConnectError) on the requests
+\* rejected after the graph stage: it must reject them too, with invalid-argument, and must not crash
+RealFails(o) ==
+  IF "realCode" \notin DOMAIN o \/ (o.realCode = "" /\ o.realPanic = "") THEN <<>>
+  ELSE F(o.realPanic = "", "C17:panic:tier1_entry_point")
+    \o F(o.realPanic # "" \/ o.realCode = "invalid_argument",
+         "C17:rejected_with_code_" \o o.realCode \o "_at_" \o o.stage \o ":tier1_entry_point")
+RealDrift(o) == "realCode" \in DOMAIN o /\ o.realCode # "" /\ o.realCode # o.code
+
+Fails(r) == OutcomeFails(r.tier1, "tier1") \o RealFails(r.tier1) \o OutcomeFails(r.tier2, "tier2")
 
 Init == l = 1 /\ bad = <<>> /\ drift = <<>> /\ req = <<>>
 TNext ==
   /\ l <= Len(Trace)
   /\ LET r == Trace[l]  f == Fails(r) IN
        /\ bad' = IF f = <<>> THEN bad ELSE Append(bad, [i |-> l, why |-> f])
-       /\ drift' = drift
+       /\ drift' = IF RealDrift(r.tier1) THEN Append(drift, [i |-> l, why |-> <<"drift:tier1_entry_point_code_differs_from_step_sequence">>]) ELSE drift
   /\ l' = l + 1
   /\ UNCHANGED req
 Done == l = Len(Trace) + 1
